@@ -2615,8 +2615,10 @@ class FileSet:
         # with the same name. Hence, we need to cover duplicated placeholders
         # so that only the first of them does group capturing.
         path_placeholders = re.findall(r"{(\w+)}", path)
+        # (wrapped into a non-capturing group, otherwise a regex with
+        # alternatives such as 'a|b' would split the whole path regex)
         duplicated_placeholders = {
-            p: self._remove_group_capturing(p, placeholder[p])
+            p: "(?:" + self._remove_group_capturing(p, placeholder[p]) + ")"
             for p in path_placeholders if path_placeholders.count(p) > 1
         }
 
